@@ -86,6 +86,23 @@ def build_driver(name, workdir, race=False, tags="verif"):
     return out
 
 
+def build_overlay_test(workdir, pkg, files, race=False, tags="verif"):
+    """Compile test files kept under /verif INTO a package of the repository (package main hosts
+    cannot be imported) with `go test -c -overlay`; /repo itself is not touched."""
+    repl = {}
+    for f in files:
+        repl[os.path.join(REPO, pkg, "zz_verif_" + os.path.basename(f))] = os.path.abspath(f)
+    ov = os.path.join(workdir, "overlay.json")
+    json.dump({"Replace": repl}, open(ov, "w"))
+    out = os.path.join(workdir, "overlay_test" + ("_race" if race else ""))
+    cmd = ["go", "test", "-c", "-vet=off", "-tags", tags, "-overlay", ov, "-o", out]
+    if race:
+        cmd.append("-race")
+    cmd.append("./" + pkg)
+    run(cmd, cwd=REPO, env=goenv(), timeout=900)
+    return out
+
+
 _TLC_NOISE = re.compile(r"^(Semantic processing|Parsing file|Linting of|\*\*\*\*\*\* SANY|Warning: Treating|CONSTANT declarations|and their level)")
 
 
